@@ -2184,6 +2184,7 @@ def run_script(
     tape = Tape(script, callstack_limit=callstack_limit)
     stack = Stack(max_items=stack_max_items, max_item_size=stack_max_item_size)
     cache = {'timestamp': int(time()), **cache_vals}
+    cache.pop('returned', None)
     tape.contracts = {**_contracts, **contracts}
     tape.plugins = {**_plugins, **plugins}
     run_tape(tape, stack, cache, additional_flags=additional_flags)
@@ -2234,6 +2235,7 @@ def run_auth_scripts(
             )
             tape.contracts = contracts
             tape.plugins = plugins
+            cache.pop('returned', None)
             run_tape(tape, stack, cache)
             assert tape.has_terminated()
 
